@@ -11,7 +11,8 @@ package harness
 // real leaks); they are not the proof.  Every scenario has a watchdog (a hang
 // is reported as a deadlock with all stacks) and ends with a goroutine-leak
 // check.  A "WARNING: DATA RACE" printed by the runtime is matched by
-// bin/checkcfg.py against the pairs of LocksetInst.known_races.
+// bin/checkcfg.py against the pairs of LocksetInst.known_races; a failing
+// scenario is reported by it as a violation of C20.
 
 import (
 	"bufio"
@@ -22,6 +23,7 @@ import (
 	"io"
 	"log"
 	"net"
+	"runtime"
 	"strings"
 	"sync"
 	"sync/atomic"
@@ -492,19 +494,27 @@ func TestScenarioShutdownExpires(t *testing.T) {
 	e.finish(false)
 }
 
-// ---- observations (logged, never failing): DESIGN F21 and the
-// accept-to-registration window of Close ----
+// ---- formerly observations, now hard: DESIGN F21 (concurrent Close /
+// Shutdown) and F28 (the accept-to-registration window of Close) ----
 
-func TestScenarioObserveConcurrentClose(t *testing.T) {
-	panics := 0
-	const tries = 300
+// Concurrent Close / Shutdown calls: exactly one of them finds the server open
+// (and returns nil here: no listener fails to close); every other one returns
+// ErrServerClosed; none panics ("close of closed channel": the test of s.done
+// and close(s.done) must be one atomic step).  The callers are released by a
+// spinning barrier so that they reach the test together.
+func TestScenarioConcurrentClose(t *testing.T) {
+	const tries = 1500
+	const callers = 4
+	panics, wrong := 0, 0
+	var firstPanic interface{}
 	for i := 0; i < tries; i++ {
 		s := smtp.NewServer(lifeBackend{})
 		s.ErrorLog = log.New(io.Discard, "", 0)
 		var wg sync.WaitGroup
 		var mu sync.Mutex
-		start := make(chan struct{})
-		for j := 0; j < 4; j++ {
+		var ready int32
+		winners, losers := 0, 0
+		for j := 0; j < callers; j++ {
 			wg.Add(1)
 			go func(j int) {
 				defer wg.Done()
@@ -512,27 +522,55 @@ func TestScenarioObserveConcurrentClose(t *testing.T) {
 					if r := recover(); r != nil {
 						mu.Lock()
 						panics++
+						if firstPanic == nil {
+							firstPanic = r
+						}
 						mu.Unlock()
 					}
 				}()
-				<-start
-				if j%2 == 0 {
-					s.Close()
-				} else {
-					s.Shutdown(context.Background())
+				atomic.AddInt32(&ready, 1)
+				for atomic.LoadInt32(&ready) < callers {
+					if runtime.GOMAXPROCS(0) < callers {
+						runtime.Gosched()
+					}
 				}
+				var err error
+				if j%2 == 0 {
+					err = s.Close()
+				} else {
+					err = s.Shutdown(context.Background())
+				}
+				mu.Lock()
+				switch err {
+				case nil:
+					winners++
+				case smtp.ErrServerClosed:
+					losers++
+				}
+				mu.Unlock()
 			}(j)
 		}
-		close(start)
 		wg.Wait()
+		if winners != 1 || losers != callers-1 {
+			wrong++
+		}
 	}
-	t.Logf("OBSERVATION concurrent-close: %d panics (close of closed channel) in %d four-way concurrent Close/Shutdown tries", panics, tries)
+	if panics > 0 {
+		t.Errorf("concurrent Server.Close/Shutdown: %d panics (%v) in %d %d-way concurrent tries: s.done closed twice", panics, firstPanic, tries, callers)
+	} else if wrong > 0 {
+		t.Errorf("concurrent Server.Close/Shutdown: in %d of %d tries not exactly one caller returned nil and the %d others ErrServerClosed", wrong, tries, callers-1)
+	}
 }
 
-func TestScenarioObserveCloseBeforeRegistration(t *testing.T) {
+// A connection that Accept returns immediately before Server.Close: whether
+// its handler registers it before Close goes through s.conns or after, the
+// server must end it.  (a) the natural race, whatever the scheduler does;
+// (b) the window forced through the listener's Close (see genlife.go).
+func TestScenarioCloseBeforeRegistration(t *testing.T) {
 	survivors := 0
 	const tries = 200
 	for i := 0; i < tries; i++ {
+		forced := i%2 == 1
 		s := smtp.NewServer(lifeBackend{})
 		s.Domain = "verif"
 		s.ErrorLog = log.New(io.Discard, "", 0)
@@ -540,20 +578,44 @@ func TestScenarioObserveCloseBeforeRegistration(t *testing.T) {
 		ret := make(chan error, 1)
 		go func() { ret <- s.Serve(l) }()
 		<-l.called
-		c1, c2 := net.Pipe()
-		sc := &closeNotifyConn{Conn: c2, closed: make(chan struct{}), written: make(chan struct{})}
-		l.next <- lifeItem{conn: sc}
-		s.Close() // races with the new handler goroutine registering the connection
-		<-ret
-		// a connection that Close missed greets and keeps being served
-		c1.SetReadDeadline(time.Now().Add(50 * time.Millisecond))
-		line, err := bufio.NewReader(c1).ReadString('\n')
-		if err == nil && strings.HasPrefix(line, "220") {
-			select {
-			case <-sc.closed:
-			default:
-				survivors++
+		var c1 net.Conn
+		var sc *closeNotifyConn
+		if forced {
+			lc, ran := l.armWindow()
+			c1, sc = lc.client, lc.server
+			if err := s.Close(); err != nil {
+				t.Fatalf("Close: %v", err)
 			}
+			if !<-ran {
+				t.Fatalf("the connection was not accepted during Close\n%s", allStacks())
+			}
+		} else {
+			var c2 net.Conn
+			c1, c2 = net.Pipe()
+			sc = &closeNotifyConn{Conn: c2, closed: make(chan struct{}), written: make(chan struct{})}
+			l.next <- lifeItem{conn: sc}
+			s.Close() // races with the new handler goroutine registering the connection
+		}
+		select {
+		case <-ret:
+		case <-time.After(scWatchdog):
+			t.Fatalf("Serve did not return after Close\n%s", allStacks())
+		}
+		// a connection that Close missed greets and keeps being served
+		select {
+		case <-sc.closed:
+		case <-sc.written:
+			c1.SetReadDeadline(time.Now().Add(50 * time.Millisecond))
+			line, err := bufio.NewReader(c1).ReadString('\n')
+			if err == nil && strings.HasPrefix(line, "220") {
+				select {
+				case <-sc.closed:
+				default:
+					survivors++
+				}
+			}
+		case <-time.After(scWatchdog):
+			t.Fatalf("the connection accepted just before Close was neither closed nor greeted\n%s", allStacks())
 		}
 		c1.Close()
 		select {
@@ -562,7 +624,47 @@ func TestScenarioObserveCloseBeforeRegistration(t *testing.T) {
 			t.Fatalf("handler did not end")
 		}
 	}
-	t.Logf("OBSERVATION close-before-registration: %d of %d connections accepted just before Server.Close were not closed by it (their handler had not registered them yet)", survivors, tries)
+	if survivors > 0 {
+		t.Errorf("close-before-registration: %d of %d connections accepted just before Server.Close were not closed by it but greeted and served (their handler had not registered them yet)", survivors, tries)
+	}
+}
+
+// The same window for Shutdown: the connection is not served (Shutdown stops
+// accepting), its handler returns, and Shutdown - which waits for the
+// handlers - returns nil without waiting for the peer.
+func TestScenarioShutdownBeforeRegistration(t *testing.T) {
+	for i := 0; i < 50; i++ {
+		s := smtp.NewServer(lifeBackend{})
+		s.Domain = "verif"
+		s.ErrorLog = log.New(io.Discard, "", 0)
+		l := newLifeListener()
+		ret := make(chan error, 1)
+		go func() { ret <- s.Serve(l) }()
+		<-l.called
+		lc, ran := l.armWindow()
+		sdRet := make(chan error, 1)
+		go func() { sdRet <- s.Shutdown(context.Background()) }()
+		if !<-ran {
+			t.Fatalf("the connection was not accepted during Shutdown\n%s", allStacks())
+		}
+		select {
+		case err := <-sdRet:
+			if err != nil {
+				t.Errorf("Shutdown: %v", err)
+			}
+		case <-lc.server.written:
+			t.Fatalf("a connection accepted during Server.Shutdown was greeted and is served; Shutdown waits for its peer")
+		case <-time.After(scWatchdog):
+			t.Fatalf("Shutdown did not return\n%s", allStacks())
+		}
+		select {
+		case <-lc.server.closed:
+		default:
+			t.Errorf("Shutdown returned although the connection accepted during it is not closed")
+		}
+		<-ret
+		lc.client.Close()
+	}
 }
 
 // Server.Close must end a connection that is still inside the implicit-TLS
